@@ -360,7 +360,9 @@ func (it *Interp) execBlock(s *istate) []*istate {
 			} else {
 				switch x.Op {
 				case token.MUL:
-					if ck, ok := localCell(x.X); ok {
+					if g, isGlobal := x.X.(*ssa.Global); isGlobal && isErrorType(x.Type()) && strings.HasPrefix(g.Name(), "Err") {
+						a = AV{K: KNonNil} // package-level sentinel error
+					} else if ck, ok := localCell(x.X); ok {
 						a = s.cells[ck]
 					} else if fa, ok := x.X.(*ssa.FieldAddr); ok {
 						base := ev(fa.X)
@@ -410,6 +412,8 @@ func (it *Interp) execBlock(s *istate) []*istate {
 					}
 					return out
 				}
+			} else if cn := calleeName(&x.Call); cn == "errors.New" || cn == "fmt.Errorf" {
+				s.env[x] = AV{K: KNonNil}
 			} else {
 				s.env[x] = AV{}
 			}
@@ -647,4 +651,8 @@ func allocTrackable(a *ssa.Alloc) bool {
 	ok := safe(a, 0)
 	allocTrackCache[a] = ok
 	return ok
+}
+
+func isErrorType(t types.Type) bool {
+	return types.Identical(t, types.Universe.Lookup("error").Type())
 }
